@@ -371,7 +371,7 @@ func (m mtMod) Genesis(x *X, c *Chain, raw json.RawMessage) string {
 		}
 		cols = append(cols, lib.Pair(lib.Pair(lib.Z(m.rk(x, col.Denom.Id)), m.dinfoTerm(x, c, *col.Denom)), lib.L(ts...)))
 	}
-	// the owners part, flattened and put in canonical (key) order: the Go export orders it by map iteration
+	// the owners part, flattened in export order
 	type fb struct {
 		o, d, t int64
 		v       uint64
@@ -384,16 +384,8 @@ func (m mtMod) Genesis(x *X, c *Chain, raw json.RawMessage) string {
 			}
 		}
 	}
-	sort.SliceStable(flat, func(i, j int) bool {
-		a, b := flat[i], flat[j]
-		if a.o != b.o {
-			return a.o < b.o
-		}
-		if a.d != b.d {
-			return a.d < b.d
-		}
-		return a.t < b.t
-	})
+	// (not sorted here: since "fix: mt genesis export lists owners, denoms and balances in store key order" the
+	// export itself is in key order, which is the model's canonical order — the fixpoint clause is exact)
 	var bs []string
 	for _, f := range flat {
 		bs = append(bs, lib.Pair(lib.Pair(lib.Z(f.o), lib.Z(f.d), lib.Z(f.t)), lib.ZU(f.v)))
